@@ -16,7 +16,7 @@ import ast
 import copy
 import inspect
 from functools import partial, reduce
-from typing import Any, Callable, Dict, List, Tuple, Union, get_args  # noqa: F401
+from typing import Any, Callable, Dict, List, Optional, Tuple, Union, get_args  # noqa: F401
 
 from sympy import Symbol
 
@@ -286,6 +286,7 @@ class QlassF(QCircuitWrapper):
         compiler: SupportedCompiler = "internal",
         bool_optimizer: BoolOptimizerProfile = defaultOptimizer,
         uncompute: bool = True,
+        def_originals: Optional[Dict[str, Callable]] = None,
     ) -> Union["QlassF", UnboundQlassf]:
         """Create a QlassF from a function or a string containing a function
 
@@ -299,13 +300,23 @@ class QlassF(QCircuitWrapper):
                 (default: defaultOptimizer)
             uncompute (bool, optional): whenever uncompute input qubits during compilation
                 (default: True)
+            def_originals (Dict[str, Callable], optional): python callables of the defs, by name;
+                visible to the original_f of a function given as a string
         """
         fun_ast = ast.parse(f if isinstance(f, str) else inspect.getsource(f))
         assert isinstance(fun_ast.body[0], ast.FunctionDef)
 
         if isinstance(f, str):
-            exec(f, globals())
-        original_f = eval(fun_ast.body[0].name) if isinstance(f, str) else f
+            # run the source in a private copy of this module's namespace (it provides the
+            # qlasskit types the annotations mention) plus the callables of the definitions:
+            # the module itself is never written, and the function is looked up by name in
+            # that namespace only (not among the locals of this method)
+            ns = dict(globals())
+            ns.update(def_originals or {})
+            exec(f, ns)
+            original_f = ns[fun_ast.body[0].name]
+        else:
+            original_f = f
 
         def _do_translate(fun_ast, original_f):
             # print(ast.dump(fun_ast, indent=4))
@@ -371,6 +382,7 @@ def qlassf(
         compiler,
         uncompute=uncompute,
         bool_optimizer=bool_optimizer,
+        def_originals={q.name: q.original_f for q in defs},
     )
 
 
